@@ -22,7 +22,7 @@ def unhex(x):
 
 def unesc_part(rep, tier, rng, bad):
     drv = common.extract_driver(); har = common.build_harness("asan", "bytesfn")
-    n = 800 if tier == "quick" else 20000
+    n = 800 if tier == "quick" else 80000
     frag = ["&", "&amp;", "&apos;", "&lt;", "&gt;", "&quot;", "&#10;", "&#9;", "&#13;", "&#1", "&#10", "&#100;", "&#39;", "&am", "&amp", "&ampx;", "&l", "&lt", "&g;", "&q", "&quot",
             "#10;", "amp;", ";", "a", "Z", " ", "\n", "\r", "\t", "<", ">", '"', "'", "\x01", "\x7f", "é", "\xff"]
     strings = []
@@ -144,7 +144,7 @@ def opml_items(opml):
 
 def docs_part(rep, tier, rng, bad):
     drv = common.extract_driver()
-    n = 250 if tier == "quick" else 5000
+    n = 250 if tier == "quick" else 20000
     docs = [gen_doc(rng, nested=(i % 4 != 3)) for i in range(n)]
     exp = tchk.convert([(d, "opml", BASE, 0) for d, _ in docs])
     mlines = ["%s|%s" % ("P" if info["preamble"] else "-", ",".join(map(str, info["levels"]))) for _, info in docs]
@@ -181,7 +181,8 @@ def docs_part(rep, tier, rng, bad):
         if [w[0] for w in want] != [g[0] for g in got]:
             bad.append(("title-lost", "outline titles %r differ from the headings %r" % ([g[0] for g in got], [w[0] for w in want]), case)); continue
         lost = [(w, g) for w, g in zip(want, got) if w[1] != (g[1] or "")]
-        if lost and len(lost) == 1 and lost[0][0] is want[-1] and lost[0][0][1].rstrip() == (lost[0][1][1] or "").rstrip() and lost[0][0][1].startswith(lost[0][1][1] or ""):
+        if lost and len(lost) == 1 and lost[0][0] is want[-1] and lost[0][0][1].rstrip(" \t\r\n\\") == (lost[0][1][1] or "").rstrip(" \t\r\n\\") and lost[0][0][1].startswith(lost[0][1][1] or ""):
+            # (a backslash before a line ending is a hard break, i.e. white space for this purpose)
             rep.violation("eof-trailing-whitespace-dropped", "white space at the very end of the document is not stored in the last item", dict(case=case))
             lost = []
         if lost:
